@@ -115,7 +115,9 @@ def build(engine, tmp, race=False, inject=None):
         sums |= set(open(rs).read().splitlines())
     open(os.path.join(tmp, "go.sum"), "w").write("\n".join(sorted(s for s in sums if s)) + "\n")
     out = os.path.join(tmp, engine + (".race" if race else "") + ".test")
-    cmd = [GO, "test", "-c", "-tags", "verif", "-modfile=" + modfile, "-o", out]
+    # -trimpath: build cache keys do not depend on the scratch directory, so repeated checks re-use the cache
+    # instead of adding every package of every scratch copy to it (it had grown to 100 GB)
+    cmd = [GO, "test", "-c", "-trimpath", "-tags", "verif", "-modfile=" + modfile, "-o", out]
     if race:
         cmd.append("-race")
     cmd.append("./engines/" + engine)
